@@ -335,6 +335,12 @@ func profileFor(prop string, r *sim.Rand, i int, quick bool) sim.Profile {
 		// Tendermint's block times carry nanoseconds; scenario scripts (i%8 == 1, 3, 5) keep whole seconds
 		p.SubSecond = i%8 == 2 || i%8 == 6
 	}
+	switch prop {
+	case "C01", "C02", "C04", "C05", "C06", "C07", "C09":
+		// genesis states as exported from a running chain: validators in jail, validators that are unstaking
+		p.RichGenesis = i%8 == 4
+		p.ExportedGenesis = i%16 == 12
+	}
 	return p
 }
 
